@@ -151,7 +151,7 @@ def stamp_roles(prog):
             a1 = prog.tys(mir["locals"][1]["ty"])
             ret = prog.tys(mir["locals"][0]["ty"])
             meths.append((k, a1, ret, mir["arg_count"]))
-    free_cone = idx.reachable(["crate::arena::Arena<T>::free_node"])
+    free_cone = idx.reachable([rules.free_node_key(prog)])
     new_cone = idx.reachable(["crate::arena::Arena<T>::new_node"])
     isrem_cone = idx.reachable(["crate::node::Node<T>::is_removed"])
     cand = {
@@ -476,7 +476,8 @@ def freelist_entry(I, entry):
         for f in LINKS:
             st.set_h0_link(x, f, None)
         st.meta["case"] = "x live, unlinked"
-        I.push_call(st, "crate::arena::Arena<T>::free_node", [driver.arena_ref(), driver.arg_id(st, x)], None, None)
+        from .. import rules as _rules
+        I.push_call(st, _rules.free_node_key(I.prog), [driver.arena_ref(), driver.arg_id(st, x)], None, None)
         I.explore([st], lambda t: records.append(freelist_record(I, entry, t, x)))
         # the same call through an id of an earlier generation of the slot (remove()/remove_subtree() act on whatever lives in the slot):
         # the new generation must still be derived from the slot's own stamp
@@ -488,7 +489,7 @@ def freelist_entry(I, entry):
         old = ("ast", x)
         st.bounds[old] = (0, I16_MAX)
         stale = VStruct(NODEID, (("index1", VNonZero(Lin(1, ("idx", x), 1))), ("stamp", VStruct(STAMP, (("0", VInt(Lin(0, old, 1), 16, True)),)))))
-        I.push_call(st, "crate::arena::Arena<T>::free_node", [driver.arena_ref(), stale], None, None)
+        I.push_call(st, _rules.free_node_key(I.prog), [driver.arena_ref(), stale], None, None)
         I.explore([st], lambda t: records.append(dict(freelist_record(I, entry, t, x), stale_id=True)))
     elif entry == "clear":
         st = State()
